@@ -213,6 +213,10 @@ def run(ctx):
                     if mp != pp:
                         kdiff += 1
                         ctx.broken.append(('K18 correspondence (PathFinder spec)', 'roots %s name %s: model %s importlib %s' % (json.dumps(c['roots']), nm, mp, pp)))
+        for nm, (how, plain, alt) in (r.get('spelling') or {}).items():
+            ctx.fail('the lookup depends on how the search-path entry is written (the import system finds the same file either way)',
+                     {'finding_class': None, 'roots': c['roots'], 'name': nm, 'spelling': how, 'found_with_plain_roots': plain, 'found_with_that_spelling': alt})
+            break
         for ri, rel in c['walks']:
             stats['walks'] += 1
             key = '%d:%s' % (ri, rel)
